@@ -341,6 +341,7 @@ def gen_options(rng, D, prof, noise_mode):
     # search portfolio: single strategy, default pair, or three/four entries (sum-rule flag 0/1)
     maybe("search_method", 0.15, lambda: _choice(rng, [[["ES-ell", 1]], [["ES-wcm", 1]], [["ES-wcm", 1], ["ES-ell", 1], ["ES-wcm", 0]],
                                                         [["ES-ell", 0], ["ES-wcm", 1], ["ES-ell", 1], ["ES-wcm", 0]]]))
+    maybe("force_poll_mesh", 0.12, lambda: True)
     maybe("nonlinear_scaling", 0.1, lambda: False)
     maybe("tol_fun", 0.1, lambda: _choice(rng, [1e-2, 1e-4, 1e-6]))
     maybe("tol_stall_iters", 0.15, lambda: rng.randrange(1, 6))
